@@ -21,6 +21,10 @@ type Str struct {
 
 func (s Str) Unquote() (string, error) {
 	if s.Str[0] == '`' {
+		if n := len(s.Str); n >= 2 && s.Str[n-1] == '`' {
+			// strip exactly the enclosing pair: the value itself may begin or end with a back quote
+			return s.Str[1 : n-1], nil
+		}
 		return strings.Trim(s.Str, "`"), nil
 	}
 	return strconv.Unquote(s.Str)
